@@ -229,7 +229,13 @@ struct RandomPairs {
 
 fn random_operand(r: &mut Rng) -> RV {
     match r.below(16) {
-        0..=5 => RV::Int(r.int_bitlen()),
+        0 => {
+            // square and cube roots of the overflow boundary, +-2
+            let base = *r.pick(&[3037000499i64, 2097151, 55108, 65536, 4294967296, 1 << 31]);
+            let v = base + r.below(5) as i64 - 2;
+            RV::Int(if r.chance(1, 2) { v } else { -v })
+        },
+        1..=5 => RV::Int(r.int_bitlen()),
         6..=10 => RV::Float(r.float_bits()),
         11 => RV::Float((r.int_bitlen() as f64) * if r.chance(1, 2) { 1.0 } else { 0.5 }),
         12 => RV::Int(*r.pick(&gen::int_pool())),
@@ -249,7 +255,7 @@ impl Phase for RandomPairs {
     fn run(&mut self, _idx: u64, r: &mut Rng, out: &mut Out) {
         let a = random_operand(r);
         // correlated operands: equal values, neighbours, same magnitude — where comparison and overflow bugs hide
-        let b = match r.below(8) {
+        let b = match r.below(10) {
             0 => a.clone(),
             1 => match &a {
                 RV::Int(i) => RV::Int(i.wrapping_add(1)),
@@ -263,6 +269,15 @@ impl Phase for RandomPairs {
             },
             3 => match &a {
                 RV::Int(i) => RV::Int(i.wrapping_neg()),
+                _ => random_operand(r),
+            },
+            // the partner that puts a product / sum / difference right at the overflow boundary
+            4 => match &a {
+                RV::Int(i) if *i != 0 && *i != -1 => RV::Int((i64::MAX / *i).wrapping_add(r.below(3) as i64 - 1)),
+                _ => random_operand(r),
+            },
+            5 => match &a {
+                RV::Int(i) => RV::Int(if r.chance(1, 2) { i64::MAX.wrapping_sub(*i) } else { i64::MIN.wrapping_sub(*i) }.wrapping_add(r.below(3) as i64 - 1)),
                 _ => random_operand(r),
             },
             _ => random_operand(r),
